@@ -12,10 +12,10 @@ PROPS = {
         runs=[dict(kind="custom", fn=c02stage.stage, features="", config="default", mode="c02"),
               dict(kind="custom", fn=c02stage.stage, features="grammar-extras", config="grammar-extras", mode="c02")],
         rule=("grammars from G(full) plus the families the property names (WHITESPACE/COMMENT of each of the five modifiers; user rules named "
-              "ASCII_DIGIT/NEWLINE/LETTER/ASCII/NUMBER/HAN; stack ops; built-in and Unicode rules; a quarter of the grammars biased to what the optimizer "
+              "ASCII_DIGIT/NEWLINE/LETTER/ASCII/NUMBER/HAN; stack ops; built-in and Unicode rules; three eighths of the grammars biased to what the optimizer "
               "hands to the two back-ends: scan-until shapes with 3-7 stop strings that contain one another in atomic rules, branches over stack-changing "
               "bodies such as PUSH(POP)?, concatenated literals) accepted by parse_and_optimize - half of them in a fuzzed spelling (raw control characters "
-              "and CR LF inside literals, comments, CRLF line ends), 320 per configuration and round - are compiled by "
+              "and CR LF inside literals, comments, CRLF line ends), 640 per configuration and round - are compiled by "
               "the working tree's #[derive(Parser)] (16 generated crates of #[grammar_inline] modules, dev profile) and every (rule, input) is "
               "parsed by both back-ends in one process: identical token streams (and, under grammar-extras, identical node tags) on success; "
               "identical error position and identical SETS of expected/unexpected rule names on failure; panics compared as an outcome; a grammar whose "
